@@ -11,9 +11,11 @@
 //	(principal <cup> (hs (<ns> <local> <path>)...) <path> <req>)           <obs>
 //
 //	<tree>   = (dir (<name> <tree>)...) | (file <has-mime 0|1>)
+//	         | (special tofile|todir|dangling|fifo <has-mime 0|1>)   a symbolic link or FIFO: the server lists it like a file
 //	<hier>   = (h (ps...) <prefix-trailing-slash> <user> <uslash> <home> <hslash> (c <name> <slash> n d m (o <name> l t e)...)...)
 //	<target> = (segs (rs...) <trailing 0|1>) | (path <path>)
-//	<req>    = (req absent|0|1|inf|bad none|xml|xml2|other <body>)
+//	<req>    = (req absent|0|1|inf|bad none|xml|xml2|other <body> [<delivery>])
+//	<delivery> = exact (default) | unknown | larger | smaller | nobody | chunked   how the body reaches the handler
 //	<body>   = empty | blank | other | malformed | <pf>
 //	<pf>     = (pf <propname 0|1> <allprop 0|1> noprop|(prop (<ns> <local>)...))
 //	<val>    = n | (h <path>) | (r (<ns> <local>)...) | e | o
@@ -21,6 +23,7 @@
 package main
 
 import (
+	"bufio"
 	"bytes"
 	"context"
 	"encoding/xml"
@@ -29,6 +32,7 @@ import (
 	"fmt"
 	"io"
 	"mime"
+	"net"
 	"net/http"
 	"net/http/httptest"
 	"net/url"
@@ -41,6 +45,7 @@ import (
 	"strings"
 	"sync"
 	"sync/atomic"
+	"syscall"
 	"time"
 
 	"github.com/emersion/go-ical"
@@ -290,6 +295,13 @@ type reqDesc struct {
 	dh, ct string
 	body   string // empty blank other malformed pf
 	pf     pfReq
+	// how the body reaches the handler (as in cmd/c13): "" / "exact" (ContentLength =
+	// len, what httptest.NewRequest makes), "unknown" (ContentLength -1 and a reader of
+	// undisclosed type, as net/http hands over a chunked body), "larger" / "smaller" (a
+	// ContentLength that disagrees with the bytes), "nobody" (http.NoBody, ContentLength
+	// 0; empty bodies only), "chunked" (written to a real httptest.Server with
+	// Transfer-Encoding: chunked over a TCP connection)
+	dl string
 }
 
 func pfSx(p pfReq) string {
@@ -321,6 +333,9 @@ func reqSx(q reqDesc) string {
 	if b == "pf" {
 		b = pfSx(q.pf)
 	}
+	if q.dl != "" && q.dl != "exact" {
+		return hx.L("req", q.dh, q.ct, b, q.dl)
+	}
 	return hx.L("req", q.dh, q.ct, b)
 }
 
@@ -332,6 +347,9 @@ func parseReq(x hx.Sx) reqDesc {
 		q.pf = parsePf(a[2])
 	} else {
 		q.body = a[2].Atom
+	}
+	if len(a) > 3 {
+		q.dl = a[3].Atom
 	}
 	return q
 }
@@ -367,38 +385,128 @@ func pfXML(p pfReq) string {
 
 func escaped(p string) string { return (&url.URL{Path: p}).EscapedPath() }
 
-func buildRequest(p string, q reqDesc) *http.Request {
-	body := ""
+func bodyText(q reqDesc) string {
 	switch q.body {
 	case "blank":
-		body = " \n\t "
+		return " \n\t "
 	case "other":
-		body = `<D:propertyupdate xmlns:D="DAV:"/>`
+		return `<D:propertyupdate xmlns:D="DAV:"/>`
 	case "malformed":
-		body = `<D:propfind xmlns:D="DAV:"><D:prop>`
+		return `<D:propfind xmlns:D="DAV:"><D:prop>`
 	case "pf":
-		body = pfXML(q.pf)
+		return pfXML(q.pf)
 	}
+	return ""
+}
+
+func contentType(q reqDesc) string {
+	switch q.ct {
+	case "xml":
+		return "application/xml"
+	case "xml2":
+		return `text/xml; charset="utf-8"`
+	case "other":
+		return "text/plain"
+	}
+	return ""
+}
+
+func depthHeader(q reqDesc) string {
+	switch q.dh {
+	case "0", "1":
+		return q.dh
+	case "inf":
+		return "infinity"
+	case "bad":
+		return "2"
+	}
+	return ""
+}
+
+// delivery: the form the request can take (see reqDesc.dl)
+func delivery(q reqDesc, body string) string {
+	switch q.dl {
+	case "", "exact":
+		return "exact"
+	case "nobody":
+		if body != "" {
+			return "unknown"
+		}
+	case "smaller":
+		if len(body) < 2 {
+			return "larger"
+		}
+	}
+	return q.dl
+}
+
+// runChunked sends the request to a real server over TCP with Transfer-Encoding:
+// chunked (an empty body is the terminating chunk alone), so that net/http's
+// server builds the *http.Request: ContentLength -1, a chunked body reader.
+func runChunked(h http.Handler, p string, q reqDesc, body string) string {
+	ts := httptest.NewServer(h)
+	defer ts.Close()
+	conn, err := net.Dial("tcp", ts.Listener.Addr().String())
+	if err != nil {
+		return hx.L("harness-dial-failed")
+	}
+	defer conn.Close()
+	conn.SetDeadline(time.Now().Add(20 * time.Second))
+	var sb strings.Builder
+	fmt.Fprintf(&sb, "PROPFIND %s HTTP/1.1\r\nHost: example.org\r\nConnection: close\r\nTransfer-Encoding: chunked\r\n", escaped(p))
+	if ct := contentType(q); ct != "" {
+		fmt.Fprintf(&sb, "Content-Type: %s\r\n", ct)
+	}
+	if d := depthHeader(q); d != "" {
+		fmt.Fprintf(&sb, "Depth: %s\r\n", d)
+	}
+	sb.WriteString("\r\n")
+	// two chunks when there is something to split, then the terminating chunk
+	if len(body) > 1 {
+		k := len(body) / 2
+		fmt.Fprintf(&sb, "%x\r\n%s\r\n%x\r\n%s\r\n", k, body[:k], len(body)-k, body[k:])
+	} else if len(body) == 1 {
+		fmt.Fprintf(&sb, "1\r\n%s\r\n", body)
+	}
+	sb.WriteString("0\r\n\r\n")
+	if _, err := io.WriteString(conn, sb.String()); err != nil {
+		return hx.L("harness-write-failed")
+	}
+	resp, err := http.ReadResponse(bufio.NewReader(conn), nil)
+	if err != nil {
+		return hx.L("harness-no-response")
+	}
+	defer resp.Body.Close()
+	data, _ := io.ReadAll(resp.Body)
+	return reduceBody(resp.StatusCode, data)
+}
+
+func buildRequest(p string, q reqDesc) *http.Request {
+	body := bodyText(q)
 	var rd io.Reader
 	if body != "" {
 		rd = strings.NewReader(body)
 	}
 	req := httptest.NewRequest("PROPFIND", "http://example.org"+escaped(p), rd)
-	switch q.ct {
-	case "xml":
-		req.Header.Set("Content-Type", "application/xml")
-	case "xml2":
-		req.Header.Set("Content-Type", `text/xml; charset="utf-8"`)
-	case "other":
-		req.Header.Set("Content-Type", "text/plain")
+	if ct := contentType(q); ct != "" {
+		req.Header.Set("Content-Type", ct)
 	}
-	switch q.dh {
-	case "0", "1":
-		req.Header.Set("Depth", q.dh)
-	case "inf":
-		req.Header.Set("Depth", "infinity")
-	case "bad":
-		req.Header.Set("Depth", "2")
+	if d := depthHeader(q); d != "" {
+		req.Header.Set("Depth", d)
+	}
+	switch delivery(q, body) {
+	case "unknown":
+		req.Body = io.NopCloser(struct{ io.Reader }{strings.NewReader(body)})
+		req.ContentLength = -1
+		req.TransferEncoding = []string{"chunked"}
+	case "larger":
+		req.Body = io.NopCloser(strings.NewReader(body))
+		req.ContentLength = int64(len(body)) + 7
+	case "smaller":
+		req.ContentLength = int64(len(body)) - 1
+	case "nobody":
+		req.Body = http.NoBody
+		req.ContentLength = 0
 	}
 	return req
 }
@@ -412,6 +520,9 @@ func runHandler(h http.Handler, p string, q reqDesc) (obs string) {
 	req := buildRequest(p, q)
 	if req.URL.Path != p {
 		return hx.L("harness-path-mismatch", hx.S(req.URL.Path))
+	}
+	if body := bodyText(q); delivery(q, body) == "chunked" {
+		return runChunked(h, p, q, body)
 	}
 	rr := httptest.NewRecorder()
 	h.ServeHTTP(rr, req)
@@ -489,6 +600,7 @@ func (t target) under(ps []string) string {
 
 type tnode struct {
 	dir      bool
+	special  string // "" or tofile | todir | dangling | fifo: not a regular file, listed like one
 	mime     bool
 	names    []string
 	children []*tnode
@@ -496,6 +608,9 @@ type tnode struct {
 
 func treeSx(n *tnode) string {
 	if !n.dir {
+		if n.special != "" {
+			return hx.L("special", n.special, hx.B(n.mime))
+		}
 		return hx.L("file", hx.B(n.mime))
 	}
 	items := []string{"dir"}
@@ -508,6 +623,9 @@ func treeSx(n *tnode) string {
 func parseTree(x hx.Sx) *tnode {
 	if x.Head() == "file" {
 		return &tnode{mime: x.Args()[0].Bool()}
+	}
+	if x.Head() == "special" {
+		return &tnode{special: x.Args()[0].Atom, mime: x.Args()[1].Bool()}
 	}
 	n := &tnode{dir: true}
 	for _, c := range x.Args() {
@@ -535,17 +653,39 @@ func mkDir(names []string, children []*tnode) *tnode {
 
 func mkFile(name string) *tnode { return &tnode{mime: hasMime(name)} }
 
-func materialise(dir string, n *tnode) error {
+func mkSpecial(kind, name string) *tnode { return &tnode{special: kind, mime: hasMime(name)} }
+
+// materialise builds the tree below dir; what links point to lives under
+// outside, which is not inside the served directory.
+func materialise(dir string, n *tnode, outside string) error {
 	if err := os.Mkdir(dir, 0o755); err != nil {
 		return err
 	}
 	for i, c := range n.children {
 		p := filepath.Join(dir, n.names[i])
-		if c.dir {
-			if err := materialise(p, c); err != nil {
-				return err
+		var err error
+		switch {
+		case c.dir:
+			err = materialise(p, c, outside)
+		case c.special == "tofile":
+			// the targets live beside the served directory, never inside it
+			if err = os.MkdirAll(outside, 0o755); err == nil {
+				if err = os.WriteFile(filepath.Join(outside, "file"), []byte("linked"), 0o644); err == nil {
+					err = os.Symlink(filepath.Join(outside, "file"), p)
+				}
 			}
-		} else if err := os.WriteFile(p, []byte("content"), 0o644); err != nil {
+		case c.special == "todir":
+			if err = os.MkdirAll(filepath.Join(outside, "dir", "inside"), 0o755); err == nil {
+				err = os.Symlink(filepath.Join(outside, "dir"), p)
+			}
+		case c.special == "dangling":
+			err = os.Symlink(filepath.Join(outside, "nothing-here"), p)
+		case c.special == "fifo":
+			err = syscall.Mkfifo(p, 0o644)
+		default:
+			err = os.WriteFile(p, []byte("content"), 0o644)
+		}
+		if err != nil {
 			return err
 		}
 	}
@@ -565,11 +705,14 @@ func scratchDir() string {
 // davGroup runs all requests of one tree against one materialised directory.
 func davGroup(tree *tnode, cases [][2]string, put func(string)) {
 	root := scratchDir()
-	if err := materialise(root, tree); err != nil {
+	if err := materialise(root, tree, root+".outside"); err != nil {
 		fmt.Fprintln(os.Stderr, "c11: cannot build tree:", err)
 		os.Exit(2)
 	}
-	defer os.RemoveAll(root)
+	defer func() {
+		os.RemoveAll(root)
+		os.RemoveAll(root + ".outside")
+	}()
 	h := &webdav.Handler{FileSystem: webdav.LocalFileSystem(root)}
 	for _, c := range cases {
 		x := hx.MustParse(c[0])[0]
@@ -1057,8 +1200,44 @@ func bodies(srv string) []reqDesc {
 		reqDesc{ct: "none", body: "pf", pf: pfReq{allprop: true}},
 		reqDesc{ct: "other", body: "pf", pf: pfReq{hasProp: true, prop: u[:1]}},
 	)
+	out = append(out, deliveryBodies(u)...)
 	return out
 }
+
+// the ways a body, or its absence, reaches the handler (net/http gives a handler
+// ContentLength 0 and http.NoBody, ContentLength -1 and a chunked reader, or a
+// declared length): an empty body is an allprop request however it arrives and
+// whatever the Content-Type; a body is read to its end whatever length was declared
+func deliveryBodies(u []pname) []reqDesc {
+	var out []reqDesc
+	for _, ct := range []string{"none", "xml", "other"} {
+		for _, dl := range []string{"unknown", "nobody", "chunked"} {
+			out = append(out, reqDesc{ct: ct, body: "empty", dl: dl})
+		}
+	}
+	out = append(out,
+		reqDesc{ct: "xml", body: "pf", pf: pfReq{allprop: true}, dl: "unknown"},
+		reqDesc{ct: "xml2", body: "pf", pf: pfReq{allprop: true}, dl: "chunked"},
+		reqDesc{ct: "xml", body: "pf", pf: pfReq{propname: true}, dl: "larger"},
+		reqDesc{ct: "xml", body: "pf", pf: pfReq{propname: true}, dl: "chunked"},
+		reqDesc{ct: "xml", body: "pf", pf: pfReq{hasProp: true, prop: u[:3]}, dl: "unknown"},
+		reqDesc{ct: "xml", body: "pf", pf: pfReq{hasProp: true, prop: u[2:6]}, dl: "chunked"},
+		reqDesc{ct: "xml", body: "pf", pf: pfReq{hasProp: true, prop: u[1:4]}, dl: "smaller"},
+		reqDesc{ct: "xml", body: "pf", pf: pfReq{hasProp: true, prop: u[:2]}, dl: "larger"},
+		reqDesc{ct: "xml", body: "pf", pf: pfReq{}, dl: "unknown"},
+		reqDesc{ct: "xml", body: "pf", pf: pfReq{}, dl: "chunked"},
+		reqDesc{ct: "xml", body: "blank", dl: "unknown"},
+		reqDesc{ct: "none", body: "blank", dl: "chunked"},
+		reqDesc{ct: "none", body: "pf", pf: pfReq{allprop: true}, dl: "unknown"},
+		reqDesc{ct: "other", body: "pf", pf: pfReq{allprop: true}, dl: "chunked"},
+		reqDesc{ct: "xml", body: "malformed", dl: "chunked"},
+		reqDesc{ct: "xml", body: "other", dl: "unknown"},
+	)
+	return out
+}
+
+// tailBodies: how many entries at the end of bodies() are not plain prop requests
+const tailBodies = 16 + 9 + 16
 
 // a few representative bodies, for the sweep over all backends
 func fewBodies(srv string) []reqDesc {
@@ -1072,6 +1251,9 @@ func fewBodies(srv string) []reqDesc {
 		{ct: "xml", body: "pf", pf: pfReq{}},
 		{ct: "none", body: "empty"},
 		{ct: "xml", body: "empty"},
+		{ct: "none", body: "empty", dl: "unknown"},
+		{ct: "other", body: "empty", dl: "chunked"},
+		{ct: "xml", body: "pf", pf: pfReq{hasProp: true, prop: u[:4]}, dl: "chunked"},
 	}
 }
 
@@ -1189,9 +1371,62 @@ type davJob struct {
 	cases [][2]string
 }
 
+// trees with entries that are not regular files: symbolic links (to a file, to a
+// directory, dangling) and a FIFO.  filepath.Walk does not follow links: the
+// server lists such an entry like a file (what the tree given to the model says);
+// every name of a directory has one response at Depth 1 and infinity, whatever
+// sorts before it.  The special entries are members, never the target or above it.
+func specialTrees() []*tnode {
+	sub := mkDir([]string{"x.html", "0-dangling"}, []*tnode{mkFile("x.html"), mkSpecial("dangling", "0-dangling")})
+	var out []*tnode
+	// special entries first, in the middle, last; one kind at a time and all together
+	for _, kind := range []string{"tofile", "todir", "dangling", "fifo"} {
+		for _, name := range []string{"0-first", "m-middle.html", "zz-last"} {
+			c := mkDir([]string{"a.txt", name, "n.json", "sub"},
+				[]*tnode{mkFile("a.txt"), mkSpecial(kind, name), mkFile("n.json"), sub})
+			out = append(out, mkDir([]string{"b.html", "c", name, "y"},
+				[]*tnode{mkFile("b.html"), c, mkSpecial(kind, name), mkFile("y")}))
+		}
+	}
+	c := mkDir([]string{"0fifo", "1-link.png", "m.txt", "sub", "t-dir"},
+		[]*tnode{mkSpecial("fifo", "0fifo"), mkSpecial("tofile", "1-link.png"), mkFile("m.txt"), sub, mkSpecial("todir", "t-dir")})
+	out = append(out, mkDir([]string{"a-link", "b.html", "c", "d-dangling", "e", "l-dir", "z.json"},
+		[]*tnode{mkSpecial("tofile", "a-link"), mkFile("b.html"), c, mkSpecial("dangling", "d-dangling"), mkFile("e"),
+			mkSpecial("todir", "l-dir"), mkFile("z.json")}))
+	return out
+}
+
+func specialTargets() []target {
+	return []target{{rs: nil}, {rs: nil, trailing: true}, {rs: []string{"c"}}, {rs: []string{"c"}, trailing: true},
+		{rs: []string{"c", "sub"}}, {rs: []string{"c", "a.txt"}}, {rs: []string{"c", "m.txt"}}, {rs: []string{"b.html"}},
+		{rs: []string{"missing"}}}
+}
+
 func genDav(jobs chan<- davJob) {
 	thorough := hx.Tier() == "thorough"
 	all, few := bodies("dav"), fewBodies("dav")
+	for ti, tree := range specialTrees() {
+		tsx := treeSx(tree)
+		bs := few
+		if thorough || ti == 12 {
+			bs = all
+		}
+		job := davJob{tree: tree}
+		for _, t := range specialTargets() {
+			for _, b := range bs {
+				for _, d := range depths {
+					q := b
+					q.dh = d
+					job.cases = append(job.cases, [2]string{hx.L("dav", tsx, targetSx(t), reqSx(q)), ""})
+				}
+			}
+		}
+		for len(job.cases) > 4000 {
+			jobs <- davJob{tree: tree, cases: job.cases[:4000]}
+			job.cases = job.cases[4000:]
+		}
+		jobs <- job
+	}
 	for _, odd := range []bool{false, true} {
 		for k := 0; k <= 3; k++ {
 			for m := 0; m <= 3; m++ {
@@ -1359,11 +1594,11 @@ func genPrincipal(emit func(string)) {
 	for hi, hs := range hsets {
 		for _, p := range []string{"/u/", "/a b/%41", "/"} {
 			for bi, b := range all {
-				if hi != 1 && bi%5 != 0 && bi < len(all)-16 {
+				if hi != 1 && bi%5 != 0 && bi < len(all)-tailBodies {
 					continue
 				}
 				for _, d := range append(append([]string{}, depths...), "bad") {
-					if d == "bad" && bi%7 != 0 && bi < len(all)-16 {
+					if d == "bad" && bi%7 != 0 && bi < len(all)-tailBodies {
 						continue
 					}
 					q := b
